@@ -243,6 +243,18 @@ func (w *world) checkRead(st *step) {
 			for _, x := range st.execs {
 				if x.caller != c && x.s > c.inv && x.e < c.ret {
 					w.r.Probe("singleflight-shared-result")
+					// ... and what the caller that ran the query did with its own object afterwards
+					if l := x.caller; l.returned && l.ret < c.ret {
+						if l.edit != 0 {
+							w.r.Probe("shared-result-and-leader-edited-its-object-before-sharer-returned")
+						}
+						if l.next != nil && l.next.reuse == 1 && l.next.inv < c.ret {
+							w.r.Probe("shared-result-and-leader-reused-its-object-before-sharer-returned")
+						}
+					}
+					if c.prefill || (c.chained && c.reuse == 1) {
+						w.r.Probe("shared-result-decoded-onto-non-zero-destination")
+					}
 					break
 				}
 			}
@@ -291,6 +303,11 @@ func (w *world) checkRead(st *step) {
 			w.fail("cached-entry-queried:index-"+kindOf(ix), "key %s holds %q for another %v, yet %d index quer(ies) ran during the read(s)", ent.ikey, ix.val, ix.x.Sub(ix.at), n[qIndex])
 		}
 		if p.hitBy(gret) {
+			for _, c := range st.readers {
+				if c.out == oRow && (c.prefill || (c.chained && c.reuse == 1)) {
+					w.r.Probe("cache-hit-decoded-onto-non-zero-destination")
+				}
+			}
 			w.r.Probe("hit-" + kindOf(p))
 			if p.val == placeholder {
 				w.r.Probe("placeholder-hit")
@@ -849,6 +866,7 @@ func (w *world) finish() {
 		w.r.Sleep(d)
 	}
 	// audit: one more read of every row through the API
+	w.audit = true
 	for _, ent := range w.ents {
 		if w.aborted || w.r.Failed() {
 			return
